@@ -9,7 +9,8 @@ IEEE binary64 arithmetic `floatArith`).  Floats travel as the decimal value of t
   open <off|on> <nc> <itemsize> <bytes> <fs> <fileTimeSecs|->   Reader / OnlineReader on a .bin with a .meta
                                                                (`-` = the key is absent: recording in progress)
   flat <off|on> <nc> <ns> <fs:nat> <itemsize> <bytes>          Reader(bin, nc=, ns=, fs=) without a .meta
-  cbin <nc> <fs> <fileTimeSecs|-> <ch_ns> <ch_nc>              Reader on a .cbin whose .ch announces (ch_ns, ch_nc)
+  cbin <nc> <fs> <fileTimeSecs|-> <ch_ns> <ch_nc> <ch_fs>      Reader on a .cbin whose .ch announces (ch_ns, ch_nc)
+                                                               and was compressed at rate ch_fs
   onlinens <nc> <itemsize> <bytes>                             OnlineReader.ns on the current size
   cells <rows> <nc> <samples>                                  the (rows, nc) view of the file, row by row
   at <rows> <nc> <nsamples> <i> <j>                            flat position of element [i, j] or IndexError
@@ -57,13 +58,13 @@ def step (t : List String) : String :=
       | .ok h => showOpened k h isz bytes
       | .error e => showErr e
     | _, _, _, _, _, _ => "bad-op"
-  | ["cbin", nc, fs, fts, chns, chnc] =>
-    match nat? nc, f64? fs, optF64? fts, nat? chns, nat? chnc with
-    | some nc, some fs, some fts, some chns, some chnc =>
-      match openCbin floatArith (.ofMeta nc fs fts) (chns, chnc) with
+  | ["cbin", nc, fs, fts, chns, chnc, chfs] =>
+    match nat? nc, f64? fs, optF64? fts, nat? chns, nat? chnc, f64? chfs with
+    | some nc, some fs, some fts, some chns, some chnc, some chfs =>
+      match openCbin floatArith (.ofMeta nc fs fts) ⟨chns, chnc, chfs⟩ with
       | .ok h => showOpened .offline h 0 0
       | .error e => showErr e
-    | _, _, _, _, _ => "bad-op"
+    | _, _, _, _, _, _ => "bad-op"
   | ["onlinens", nc, isz, bytes] =>
     match nat? nc, nat? isz, nat? bytes with
     | some nc, some isz, some bytes =>
